@@ -19,6 +19,14 @@ CHECKS = {
         "Trusted: mc/refpeg.py (validated on 127 pinned pest-suite samples), the conservative printer, CPython. Not covered: grammars/inputs beyond the bound, the 'larger ones sampled' clause, recursion.",
         "5/C03",
     ),
+    "C04": (
+        "model_checking", "engine",
+        "stateless exhaustive enumeration of (grammar x trivia configuration x modifier x input) executions in all four modes in lock-step with the reference PEG model",
+        "Start-rule bodies up to n nodes over literals and @ $ ! _ helper rules (three helper packs with modifier nesting depth 3), every start modifier, eight WHITESPACE/COMMENT configurations and every input over the letters plus the trivia symbols "
+        "(so trivia is leading, between, trailing, inside atomic spans and unterminated) are run in IU, GU, IO and GO and compared - spans, inner pairs, positions of non-silent trivia pairs - with the reference evaluator.",
+        "Trusted: mc/refpeg.py (skip placement, atomicity and pair visibility transcribed from pest's generator/ParserState; validated on the pinned pest-suite samples). Helper packs are fixed, not enumerated. Not covered: larger bodies, longer inputs.",
+        "5/C04",
+    ),
     "C09": (
         "model_checking", "bfs",
         "explicit-state BFS over the real Stack / SnapshottingInt / ParserState objects in lock-step with a full-copy reference model",
